@@ -310,6 +310,14 @@ def check_walker(ctx, walker):
                 'loop (line %d) instead of one per recursive call: the rules '
                 'on its base case, step and list fold read the recursive '
                 'form only' % (f.qual, getattr(n, 'lineno', n.iter.lineno)))
+        if isinstance(n, ast.While) and any(
+                isinstance(x, ast.Name) and x.id == seg_p
+                for x in ast.walk(n.test)):
+            raise AnalysisError(
+                'the credential walker %s consumes its path segments in a '
+                'while loop (line %d) instead of one per recursive call: '
+                'the rules on its base case, step and list fold read the '
+                'recursive form only' % (f.qual, n.lineno))
     from ..dte import inline_helpers
     t = Table(prog, f, inline=inline_helpers(prog, modules={CHECKS},
                                              exclude={f.qual}))
